@@ -185,6 +185,14 @@ def gen(rng, tier, info):
             for m in range(4):
                 for ti in range(len(W_TEXTS)):
                     cases.append({"k": 1, "conf": list(conf), "prog": [["w", t, m, ti], ["scope", 0, 0, 3, [["w", t, m, ti]]], ["w", t, m, ti]]})
+    # a write that fails on an invalid style, then a decorated write: the decoration must still be there
+    for conf in confs:
+        for t in range(2):
+            for m in range(2):
+                for bad in (-1, -2):
+                    for m2 in range(2):
+                        cases.append({"k": 1, "conf": list(conf), "after_bad": True,
+                                      "prog": [["try", [["w", t, m, bad]]], ["w", t, m2, 8]]})
     n_c = len(cases) - n_a - n_b
     for i in range(n_prog):
         cases.append({"k": 1, "conf": list(rng.choice(confs)), "prog": gen_prog(rng, 4, i % 10 == 9)})
@@ -461,6 +469,17 @@ def oracle(c, o):
     _, so, se, io_, ie_, raised = o
     if (io_, ie_) != (0, 0):
         return "indentation-not-restored-at-top-level"
+    if c.get("after_bad"):
+        sa, fk, sec = c["conf"]
+        on = {0: bool(sa), 1: True, 2: False, 3: False}[fk]
+        got = unS([so, se][c["prog"][1][1]])
+        if raised:
+            return "exception-propagation-differs"
+        if on and "\x1b[32mx\x1b[0m" not in got:
+            return "decoration-lost-after-a-write-that-failed-on-an-invalid-style"
+        if not on and "\x1b" in got:
+            return "undecorated-output-emits-escape"
+        return None
     try:
         bufs, r = spec_prog(c["prog"], c["conf"])
     except KeyError:
